@@ -351,7 +351,7 @@ def replay_crash(cex, d):
         spec['lens'] = [int(fx[f'l{i + 1}']) for i in range(int(fx['K']))]
         sizes = spec['lens']
     if max(sizes + [spec['k1'], spec['k2']]) > 2000:
-        return {'reproduced': False, 'detail': 'sizes too large to materialise'}
+        return {'reproduced': False, 'skip': True, 'detail': 'sizes too large to materialise'}
     with rp.scratch() as tmp:
         spec['root'] = tmp
         rc, out, err = rp.run_child(_CHILD.replace('SPEC', repr(json.dumps(spec))), timeout=300)
